@@ -90,7 +90,11 @@ func crashChildBinary() (string, error) {
 			dir = os.TempDir()
 		}
 		childPath = filepath.Join(dir, fmt.Sprintf("crashchild-%d", os.Getpid()))
-		cmd := exec.Command("go1.26.8", "build", "-tags", "verif", "-o", childPath, "./cmd/crashchild")
+		args := []string{"build", "-tags", "verif", "-o", childPath}
+		if mf := os.Getenv("VERIF_MODFILE"); mf != "" {
+			args = append(args, "-modfile="+mf)
+		}
+		cmd := exec.Command("go1.26.8", append(args, "./cmd/crashchild")...)
 		cmd.Dir = harnessDir()
 		cmd.Env = append(os.Environ(), "GOFLAGS=-mod=mod", "GOPROXY=off", "GOSUMDB=off", "GOTOOLCHAIN=local")
 		if out, err := cmd.CombinedOutput(); err != nil {
